@@ -181,6 +181,32 @@ def gen_chain(rng, o, depth):
     return fs
 
 
+def gen_siblings(rng, o, depth):
+    """closed groups FIRST, then (as a later sibling) the deeper branch, at every level: a depth
+    counter that is not restored exactly after a closed group shows up only on such trees"""
+    fs = []
+    for _ in range(rng.randint(1, 3)):
+        k = rng.random()
+        if k < 0.4:
+            inner = [{"t": "varint", "n": 3, "v": rng.choice(U64)}]
+        elif k < 0.7:
+            inner = [{"t": "group", "n": rng.choice(NUMS[:6]), "v": []}]
+        else:
+            inner = []
+        fs.append({"t": "group", "n": rng.choice(NUMS[:6]), "v": inner})
+    if depth > 0:
+        sub = gen_siblings(rng, o, depth - 1)
+        if o["msg"] and rng.random() < 0.6:
+            fs.append({"t": "msg", "n": rng.choice(o["msg"]), "v": sub})
+        else:
+            fs.append({"t": "group", "n": rng.choice(NUMS[:6]), "v": sub})
+    else:
+        fs.append({"t": "varint", "n": 3, "v": 7})
+    if rng.random() < 0.3:
+        fs.append({"t": "group", "n": rng.choice(NUMS[:6]), "v": []})
+    return fs
+
+
 def mutate(rng, b):
     b = bytearray(b)
     k = rng.choice(["trunc", "flip", "overlong", "endgroup", "insert", "lenbump", "dup", "wt"])
@@ -386,6 +412,14 @@ def run(ck, binary, run_impl, replay):
                     mb, kind2 = mutate(rng, mb)
                     kind += "+" + kind2
                 cases.append(mk_parse(mb[:4096], o, origin="mut:" + kind))
+        # (b2) groups and nested messages as siblings at several levels, the deep branch after closed
+        #      groups, under EVERY max_depth from 1 to nesting+3
+        for i in range(40 if quick else 600):
+            o = {"msg": rng.sample([1, 2, 15], rng.randint(1, 2)), "packed": {}, "max": 0}
+            tree = gen_siblings(rng, o, rng.randint(0, 5) if i % 4 else rng.randint(6, 12))
+            b = enc_fields(tree)
+            for mx in range(1, nest(tree) + 4):
+                cases.append(mk_parse(b, dict(o, max=mx), tree=tree, origin="siblings"))
         # (c) packed field without configured element type, unsupported element type
         cases.append(mk_parse(bytes.fromhex("1a03010203"), None, packno=[3], origin="cfg"))
         cases.append(mk_parse(bytes.fromhex("1a03010203"), {"msg": [], "packed": {3: 2}, "max": 0}, origin="cfg"))
